@@ -1,5 +1,7 @@
 import CCVerif.Lemmas.SDataCow
 import CCVerif.Lemmas.SDataLazy
+import CCVerif.Lemmas.SDataCard
+import CCVerif.Model.SDataPinned
 /-!
 # C15 — structured data is a finite-set algebra with value semantics
 
@@ -460,10 +462,10 @@ theorem card_pow (b : LSet) (n : Nat) (h : b.card = some n) :
     (LSet.pow b).card = some (if n > BOOL_INFINITY then SET_INFINITY else 2 ^ n) := by
   simp [LSet.card, h]
 
-/-- `Cardinality()` of a product is the product of the factor sizes whenever twice that product
+/-- `Cardinality()` of a product is the product of the (reported) factor sizes whenever that product
 is at most `SET_INFINITY`. -/
 theorem card_prod (fs : List LSet) (dims : List Nat) (h : LSet.cardList fs = some dims)
-    (hpos : ∀ d ∈ dims, 0 < d) (hb : 2 * dims.foldr (· * ·) 1 ≤ SET_INFINITY) :
+    (hpos : ∀ d ∈ dims, 0 < d) (hb : dims.foldr (· * ·) 1 ≤ SET_INFINITY) :
     (LSet.prod fs).card = some (dims.foldr (· * ·) 1) := by
   have := prodCount_exact dims 1 (Nat.le_refl 1) hpos (by simpa using hb)
   simp [LSet.card, h, this]
@@ -481,5 +483,183 @@ theorem decartian_empty_factor (fs : List LSet) (xss : List (List Val)) (h : ∃
 
 example : (decartian [.enum [.e 1], .enum []]).iter = some [] ∧ (decartian [.enum [.e 1], .enum []]).isLazy = false ∧
     tuplesOf [[.e 1], []] = [] := by decide
+
+/-! ## 6. `Cardinality()` against the set-theoretic cardinality
+
+`LSet.trueCard` (Spec/SDataCard.lean) is the mathematical size: the members of an enumeration,
+`2 ^ |base|`, the product of the factor sizes.  `LSet.cardExact` is the arithmetic range in which the
+C++ reports it: a power set over at most `BOOL_INFINITY = 30` members; a product all of whose partial
+products are at most `SET_INFINITY` (`SET_INFINITY / factor ≥ count` at every factor, i.e.
+`count * factor ≤ SET_INFINITY` — since 9d0a596; the test was `>` before, see
+`pinned_product_size_order_counterexample`), all of it hereditarily.  Every set of at most
+`SET_INFINITY` members is in that range (`card_exact_of_small`), and outside it the set has more than
+`SET_INFINITY` members (`card_saturates`).  `LSet.factorsNonempty`: no `SDDecartian` has an empty
+factor — what `Factory::Decartian` guarantees (`factory_sets_have_nonempty_factors`). -/
+
+/-- cardinality = number of iterated elements, part 1: whatever a (possibly lazy, possibly nested)
+implementation yields when iterated, it yields `trueCard` elements; a well-formed one yields them
+pairwise different. -/
+theorem iteration_counts_members (l : LSet) (τ : Ty) (h : l.wf τ = true) :
+    ∃ xs, l.iter = some xs ∧ xs.Nodup ∧ xs.length = l.trueCard := LSet.iter_nodup_length l τ h
+
+/-- the length of any defined iteration is the set-theoretic cardinality (no well-formedness needed). -/
+theorem iteration_length (l : LSet) (xs : List Val) (h : l.iter = some xs) : xs.length = l.trueCard :=
+  LSet.iter_length l xs h
+
+/-- `Cardinality()` is the set-theoretic cardinality on the whole exact range — in particular the
+numbers `2^29`, `2^30` above `SET_INFINITY` that a power set of 29 / 30 members reports un-saturated. -/
+theorem card_exact (l : LSet) (hne : l.factorsNonempty = true) (hx : l.cardExact = true) :
+    l.card = some l.trueCard := by
+  obtain ⟨c, hc, hr⟩ := LSet.card_rel l hne
+  rw [hc, hr.1 hx]
+
+/-- every set of at most `SET_INFINITY` members is in the exact range, whatever its shape and the
+order of its factors: `Cardinality()` is exact whenever the set-theoretic cardinality does not exceed
+`SET_INFINITY`. -/
+theorem card_exact_of_small (l : LSet) (hne : l.factorsNonempty = true) (hs : l.trueCard ≤ SET_INFINITY) :
+    l.cardExact = true ∧ l.card = some l.trueCard :=
+  ⟨LSet.cardExact_of_small l hne hs, card_exact l hne (LSet.cardExact_of_small l hne hs)⟩
+
+/-- the side condition of a product does not depend on the order of the factors: for non-zero factor
+sizes it says that the whole product is at most `SET_INFINITY`. -/
+theorem prodFits_iff_product_le (ds : List Nat) (h : ∀ d ∈ ds, d ≠ 0) :
+    prodFits ds 1 = true ↔ ds.foldr (· * ·) 1 ≤ SET_INFINITY := by
+  rw [prodFits_iff ds 1 h (Nat.le_refl 1) (by decide), Nat.one_mul]
+
+/-- cardinality = number of iterated elements, part 2: in the exact range `Cardinality()` is the
+number of (pairwise different) elements the iteration yields — the hypothesis of `compare_lazy`. -/
+theorem card_is_iteration_count (l : LSet) (τ : Ty) (h : l.wf τ = true) (hne : l.factorsNonempty = true)
+    (hx : l.cardExact = true) : ∃ xs, l.iter = some xs ∧ xs.Nodup ∧ l.card = some xs.length := by
+  obtain ⟨xs, h1, h2, h3⟩ := LSet.iter_nodup_length l τ h
+  exact ⟨xs, h1, h2, by rw [h3]; exact card_exact l hne hx⟩
+
+/-- outside the exact range `Cardinality()` is exactly `SET_INFINITY`, and the set then has more
+than `SET_INFINITY` members: a saturated report is never above the true size. -/
+theorem card_saturates (l : LSet) (hne : l.factorsNonempty = true) (hx : l.cardExact = false) :
+    l.card = some SET_INFINITY ∧ SET_INFINITY < l.trueCard := by
+  obtain ⟨c, hc, hr⟩ := LSet.card_rel l hne
+  obtain ⟨e, hb⟩ := hr.2 hx
+  exact ⟨by rw [hc, e], hb⟩
+
+/-- the complete description: `Cardinality()` is defined, is the true cardinality or `SET_INFINITY`,
+the latter only above `SET_INFINITY`; it is never above the true cardinality, never below
+`min (true cardinality) SET_INFINITY`, and exact whenever the true cardinality is at most `SET_INFINITY`. -/
+theorem card_characterised (l : LSet) (hne : l.factorsNonempty = true) :
+    ∃ c, l.card = some c ∧ c = (if l.cardExact = true then l.trueCard else SET_INFINITY) ∧
+      (c = l.trueCard ∨ (c = SET_INFINITY ∧ SET_INFINITY < l.trueCard)) ∧
+      min l.trueCard SET_INFINITY ≤ c ∧ c ≤ l.trueCard ∧ (l.trueCard ≤ SET_INFINITY → c = l.trueCard) := by
+  obtain ⟨c, hc, hr⟩ := LSet.card_rel l hne
+  refine ⟨c, hc, ?_⟩
+  cases hx : l.cardExact with
+  | true =>
+    have e := hr.1 hx
+    exact ⟨by simp [e], Or.inl e, by rw [e]; exact Nat.min_le_left _ _, by omega, fun _ => e⟩
+  | false =>
+    obtain ⟨e, hb⟩ := hr.2 hx
+    exact ⟨by simp [e], Or.inr ⟨e, hb⟩, by rw [e]; exact Nat.min_le_right _ _, by omega, fun h => by omega⟩
+
+/-- `Cardinality()` is the true cardinality exactly on `cardExact`. -/
+theorem card_exact_iff (l : LSet) (hne : l.factorsNonempty = true) :
+    l.card = some l.trueCard ↔ l.cardExact = true := by
+  obtain ⟨c, hc, hr⟩ := LSet.card_rel l hne
+  rw [hc]
+  cases hx : l.cardExact with
+  | true => simp [hr.1 hx]
+  | false =>
+    obtain ⟨e, hb⟩ := hr.2 hx
+    simp only [e, Option.some.injEq, Bool.false_eq_true, iff_false]
+    omega
+
+/-- a non-empty set never reports cardinality 0, and an empty one reports 0 (`IsEmpty()` is
+`Cardinality() == 0`): the clause a wrapping product of sizes breaks. -/
+theorem card_zero_iff_empty (l : LSet) (hne : l.factorsNonempty = true) : l.card = some 0 ↔ l.trueCard = 0 :=
+  LSet.card_zero_iff l hne
+
+/-- `Cardinality()` performs no division by zero when no `SDDecartian` has an empty factor … -/
+theorem card_defined (l : LSet) (hne : l.factorsNonempty = true) : l.card ≠ none := by
+  obtain ⟨c, hc, _⟩ := LSet.card_rel l hne
+  rw [hc]; exact Option.some_ne_none c
+
+/-- … and `SDDecartian::UpdateSize` does divide by the factor size: an `SDDecartian` over an empty
+factor would be stuck (`SET_INFINITY / 0`). The constructor is not reachable with such a factor: -/
+theorem card_stuck_on_empty_factor : (LSet.prod [.enum [.e 1], .enum []]).card = none ∧
+    (decartian [.enum [.e 1], .enum []]).card = some 0 := by decide
+
+/-- `Factory::Decartian` answers `EmptySet()` when a factor reports `IsEmpty()`, which (by
+`card_zero_iff_empty`) is the case exactly for the empty factors: so no set built through the public
+API — enumerations, `Factory::Boolean`, `Factory::Decartian`, nested in any way — contains an
+`SDDecartian` with an empty factor, and `Factory::Decartian` denotes the set-theoretic product. -/
+theorem factory_sets_have_nonempty_factors (l : LSet) (h : Built l) : l.factorsNonempty = true :=
+  h.factorsNonempty
+
+theorem factory_decartian_spec (fs : List LSet) (h : ∀ f ∈ fs, f.factorsNonempty = true) :
+    (decartian fs).factorsNonempty = true ∧ (decartian fs).trueCard = (LSet.prod fs).trueCard :=
+  decartian_spec fs h
+
+/-- the specification column of the driver op `c15 card`: `specCard` is the set-theoretic
+cardinality on the exact range and unspecified (`none`, printed `x`) elsewhere; where it is specified
+the model's `Cardinality()` returns it. -/
+theorem specCard_spec (l : LSet) :
+    l.specCard = (if l.cardExact = true then some l.trueCard else none) ∧
+    ∀ n, l.specCard = some n → l.factorsNonempty = true → l.card = some n := by
+  refine ⟨LSet.specCard_eq l, fun n hn hne => ?_⟩
+  rw [LSet.specCard_eq l] at hn
+  cases hx : l.cardExact with
+  | true =>
+    simp only [hx, if_true, Option.some.injEq] at hn
+    rw [← hn]; exact card_exact l hne hx
+  | false => simp [hx] at hn
+
+section card_examples
+private def X (n : Nat) : LSet := .enum ((List.range n).map fun i => .e (Int.ofNat i))
+/-- ℬ({1..5}) has 32 members; {1,2}×{1,2,3} has 6 — exact range, `card_exact` applies. -/
+example : (LSet.pow (X 5)).factorsNonempty = true ∧ (LSet.pow (X 5)).cardExact = true ∧
+    (LSet.pow (X 5)).trueCard = 32 ∧ (LSet.pow (X 5)).card = some 32 := by decide
+example : (LSet.prod [X 2, X 3]).factorsNonempty = true ∧ (LSet.prod [X 2, X 3]).cardExact = true ∧
+    (LSet.prod [X 2, X 3]).trueCard = 6 ∧ (LSet.prod [X 2, X 3]).card = some 6 := by decide
+example : (LSet.pow (X 5)).wf (.coll .base) = true := by decide
+/-- ℬ(X22)×ℬ(X22)×ℬ(X22) (2^66 members): outside the exact range, saturated and not 0
+(`card_saturates`, `card_zero_iff_empty`). -/
+example : (LSet.prod [.pow (X 22), .pow (X 22), .pow (X 22)]).factorsNonempty = true ∧
+    (LSet.prod [.pow (X 22), .pow (X 22), .pow (X 22)]).cardExact = false := by decide
+example : (LSet.prod [.pow (X 22), .pow (X 22), .pow (X 22)]).card = some SET_INFINITY :=
+  (card_saturates _ (by decide) (by decide)).1
+example : (LSet.prod [.pow (X 22), .pow (X 22), .pow (X 22)]).card ≠ some 0 := by
+  rw [(card_saturates _ (by decide) (by decide)).1]; decide
+/-- the exactness test does not depend on the order of the factors: ℬ(X26)×{1,2,3} and {1,2,3}×ℬ(X26)
+both report their 201326592 ≤ `SET_INFINITY` members (`card_exact_of_small`). -/
+example : (LSet.prod [.pow (X 26), X 3]).cardExact = true ∧ (LSet.prod [X 3, .pow (X 26)]).cardExact = true ∧
+    (LSet.prod [X 3, .pow (X 26)]).factorsNonempty = true ∧ (LSet.prod [.pow (X 26), X 3]).factorsNonempty = true ∧
+    (LSet.prod [X 3, .pow (X 26)]).specCard = some 201326592 ∧
+    (LSet.prod [.pow (X 26), X 3]).specCard = some 201326592 := by decide
+example : (LSet.prod [X 3, .pow (X 26)]).card = some 201326592 ∧ (LSet.prod [.pow (X 26), X 3]).card = some 201326592 :=
+  ⟨by rw [card_exact _ (by decide) (by decide)]; decide, by rw [card_exact _ (by decide) (by decide)]; decide⟩
+/-- {1,2,3}×ℬ(X27) has 402653184 > `SET_INFINITY` members: saturated, in either order. -/
+example : (LSet.prod [X 3, .pow (X 27)]).cardExact = false ∧ (LSet.prod [.pow (X 27), X 3]).cardExact = false ∧
+    (LSet.prod [X 3, .pow (X 27)]).factorsNonempty = true := by decide
+/-- a power set of 30 members reports `2^30 > SET_INFINITY` un-saturated (exact), of 31 members `SET_INFINITY`. -/
+example : (LSet.pow (X 30)).cardExact = true ∧ (LSet.pow (X 31)).cardExact = false := by decide
+example : Built (decartian [boolean (.enum [.e 1]), .enum []]) :=
+  .decartian (fun f hf => by
+    rcases List.mem_cons.mp hf with e | hf
+    · subst e; exact .boolean (.enum _)
+    · rcases List.mem_cons.mp hf with e | hf
+      · subst e; exact .enum _
+      · cases hf)
+end card_examples
+
+/-! ## 7. pinned: `SDDecartian::UpdateSize` before 9d0a596
+
+The loop tested `SET_INFINITY / factorSize > count`, i.e. `(count + 1) * factorSize ≤ SET_INFINITY`
+(`prodCountPinned`, Model/SDataPinned.lean): a product of between `SET_INFINITY / 2` and `SET_INFINITY`
+members could be reported as `SET_INFINITY`, depending on the order of its factors. -/
+
+/-- the old loop on the factor sizes of {1,2,3}×ℬ(X26): `SET_INFINITY`, although the 201326592 members
+fit; on those of ℬ(X26)×{1,2,3}: exact; the present loop: exact on both. -/
+theorem pinned_product_size_order_counterexample :
+    prodCountPinned [3, 2 ^ 26] 1 = some SET_INFINITY ∧ 3 * 2 ^ 26 = 201326592 ∧ 201326592 ≤ SET_INFINITY ∧
+    prodCountPinned [2 ^ 26, 3] 1 = some 201326592 ∧
+    prodCount [3, 2 ^ 26] 1 = some 201326592 ∧ prodCount [2 ^ 26, 3] 1 = some 201326592 := by decide
+
 
 end CCVerif.C15
